@@ -105,7 +105,7 @@ PROPS = {
    "Lean 4 proof (corollary of parser refinement, contract theorem and encoder refinement) + differential correspondence",
    "cbor_to_cbor: parser events of any supported item in any spelling fed to the encoder give a valid document with the "
    "same value. Correspondence: op `xcode` (Src.ParseReader(in, Dst.NewVisitor(out)) as in the README) for all 9 pairs, "
-   "single documents and streams, random chunkings; oracle: both documents decoded by the specifications.",
+   "single documents and streams, random chunkings; oracle: both documents decoded by the specifications."
    " PropsX.C08: cbor_to_ubjson (valid UBJSON item, read back by the UBJSON reference decoder as the source's value up to the "
    "documented uint64 > MaxInt64 change, exactly equal otherwise) and cbor_to_json (float-free sources with UTF-8 strings: "
    "accepted by the RFC 8259 reference decoder with the source's value), by composing the CBOR parser refinement with the "
